@@ -174,14 +174,23 @@ pub fn open_image(img: &Image, cfg: &CfgSpec, model: &Model, hi: usize) -> Outco
     out
 }
 
-/// Input class of an image, computed with the reference decoder only.
-pub fn image_class(img: &Image) -> Option<&'static str> {
+/// Input class of an image, computed with the reference decoder (and, when the expected
+/// journal layout is known, with it: that tells "the previous chunk lacks its tail" apart from
+/// "a whole chunk file is missing").
+pub fn image_class(img: &Image, layout: Option<&crate::driver::Layout>) -> Option<&'static str> {
     let files = shadowfs::ordered(img);
     for w in files.windows(2) {
         let (a_off, _, a) = &w[0];
         let (b_off, _, _) = &w[1];
         let valid = refcodec::parse_chunk(a).valid_len() as u64;
         if a_off + valid != *b_off {
+            if let Some(l) = layout {
+                // the file that follows `a` in the expected journal
+                let next = l.chunks.iter().position(|c| c.start == *a_off).and_then(|i| l.chunks.get(i + 1)).map(|c| c.start);
+                if next != Some(*b_off) {
+                    return Some("chunk-file-missing");
+                }
+            }
             return Some("previous-chunk-tail-missing");
         }
     }
